@@ -149,12 +149,12 @@ Lemma at_sim_start_div m k c now stage w s' : stage <> 0 -> Div m w (x_w s') ->
   Div m w (x_w (fst (at_sim_start k c now m stage s'))) /\
   snd (at_sim_start k c now m stage s') = false.
 Proof.
-  intros H [vb va vt vn vi vbu vtp vr vs]. apply N.eqb_neq in H. unfold at_sim_start. rewrite H.
+  intros H [vb va vt vn vi vbu vtp vc vr vs]. apply N.eqb_neq in H. unfold at_sim_start. rewrite H.
   unfold exec, spawn_all, poll_ready. cbn [combine seq length map run_prog fst snd].
   wsimpl. rewrite !N.eqb_refl. wsimpl. rewrite vr. cbn [app fold_left catch fst snd x_w].
   split; [|reflexivity].
   constructor; cbn [on_w say x_w w_buf w_mod set_mod]; rewrite ?N.eqb_refl; cbn [w_mod set_mod]; rewrite ?N.eqb_refl;
-    cbn [timers nw inc bud tpanics ready shut set_ready]; try assumption; try reflexivity.
+    cbn [timers nw inc bud tpanics catchf ready shut set_ready]; try assumption; try reflexivity.
   intros j Hj. pose proof (va j Hj) as Hv. apply N.eqb_neq in Hj. rewrite !Hj. exact Hv.
 Qed.
 
